@@ -23,7 +23,7 @@ for name in sorted(os.listdir(S)):
             res = {"_apply": "patch no longer applies to /repo HEAD: " + ap.stderr.decode()[:200]}
         else:
             for pid in checks:
-                p = subprocess.run(["python3", "tools/check.py", pid], cwd=V, env=dict(os.environ, VERIF_REPO=r),
+                p = subprocess.run(["python3", "tools/check.py", pid], cwd=V, env=dict(os.environ, VERIF_REPO=r, VERIF_EVIDENCE=os.path.join(os.path.dirname(r), "evidence"), VERIF_REPLAYS=os.path.join(V, "replays")),
                                    stdout=subprocess.PIPE, stderr=subprocess.STDOUT)
                 out = p.stdout.decode(errors="replace")
                 v = [l for l in out.splitlines() if l.startswith("VIOLATION")]
